@@ -90,7 +90,6 @@ def get_field_reader(
     entity_type: type[Entity],
     field: Field[T],
     is_request_header: bool,
-    is_tagged_field: bool,
 ) -> readers.Reader[T]:
     # RequestHeader.client_id is special-cased by Apache Kafka® to always use the legacy
     # string format.
@@ -106,7 +105,9 @@ def get_field_reader(
             inner_type_reader = get_reader(
                 kafka_type=get_schema_field_type(field),
                 flexible=flexible,
-                optional=is_optional(field) and not is_tagged_field,
+                # Note that this also applies to tagged fields, a peer is allowed to
+                # explicitly send null for a nullable tagged field.
+                optional=is_optional(field),
             )
         case PrimitiveTupleField():
             inner_type_reader = get_reader(
@@ -163,7 +164,6 @@ def entity_reader(
             entity_type=entity_type,
             field=field,
             is_request_header=is_request_header,
-            is_tagged_field=tag is not None,
         )
         if tag is not None:
             tagged_field_readers[tag] = (
